@@ -1,6 +1,6 @@
 (* C20 - closing or losing the link never strands a caller and is reported once. *)
 From Coq Require Import NArith List Bool.
-From ZB Require Import Api.Api Api.ApiProofs Api.ApiLive gen.GenConsts.
+From ZB Require Import Api.Api Api.ApiProofs Api.ApiLive Api.ApiFifo gen.GenConsts.
 Import ListNotations.
 Open Scope N_scope.
 
@@ -61,6 +61,12 @@ Theorem C20_close_terminates_whatever_follows : forall evs evs' dt, wf_events ev
   forallb is_done (reqs (run_events (evs ++ [EClose] ++ evs' ++ [ETick dt]))) = true.
 Proof. exact close_terminates_general. Qed.
 Print Assumptions C20_close_terminates_whatever_follows.
+
+(* "closing again is harmless": a second close() changes nothing at all - not one field of the state, not one observation *)
+Theorem C20_close_again_is_harmless : forall evs, wf_events evs -> reset_in_progress (run_events evs) = false ->
+  step (step (run_events evs) EClose) EClose = step (run_events evs) EClose.
+Proof. exact close_again_is_harmless. Qed.
+Print Assumptions C20_close_again_is_harmless.
 
 (* when the connection is lost, requests in flight still terminate by their timeout: all have ended once the
    acknowledgement wait plus the longest response timeout T has passed *)
